@@ -4,6 +4,7 @@ from sa.awslib import AwsHooks
 from sa.cfg import dominators, ev_dominates
 from sa.num import Num, Poly, Limit, entails
 from sa.rules import argstr, where
+from rules import atomics_map
 
 FILE = "source/ring_buffer.c"
 RB = "aws_ring_buffer"
@@ -15,7 +16,7 @@ DECIDED = [
     "AVAILABLE: after head and tail have been read, a request is refused only when it does not fit the free region of the observed case; in particular an idle ring (head == tail) refuses only sizes larger than its whole capacity (NUM on every refusal path)",
     "SINGLE-WRITER: head is stored only by the acquire functions and init; tail only by release, init and the acquire functions' empty case (under head == tail)",
     "MEMORY-ORDER: tail is loaded with acquire (or stronger) by the acquirer and stored with release (or stronger); release publishes buffer+capacity of the buffer it then zeroes",
-]
+] + list(atomics_map.DECIDED)
 NOT_DECIDED = ["interleavings of the two threads (the rules decide what each side does with the values it observed)"]
 ASSUMPTIONS = ["acquire_up_to is called with minimum_size <= requested_size", "ring buffer valid at entry: allocation <= head, tail <= allocation_end (aws_ring_buffer_is_valid)", "one acquirer thread, one releaser thread, FIFO release (documented contract)"]
 
@@ -108,6 +109,9 @@ def analyse(ctx, replace=None, only=None):
     for f in fns.values():
         R.fn(f)
     init_rule(R, P)
+    atomics_map.atomics_map(R, P)
+    if only and only.get("atomics"):
+        return
     n_paths = 0
     n_refused = [0]
     for name in ("aws_ring_buffer_acquire", "aws_ring_buffer_acquire_up_to"):
@@ -234,7 +238,7 @@ def analyse(ctx, replace=None, only=None):
             "the buffer is zeroed before its end is published (tail would be set to NULL+0)")
 
 
-MUTANTS = [
+MUTANTS = [dict(_m, scope={"atomics": True}) for _m in atomics_map.MUTANTS] + [
     {"name": "ring-end-rounded-up-past-the-block", "file": FILE, "expect": "FREE-REGION", "old": "    ring_buf->allocation_end = ring_buf->allocation + size;", "new": "    ring_buf->allocation_end = ring_buf->allocation + ((size + sizeof(void *) - 1) & ~(sizeof(void *) - 1));"},
     {"name": "idle-ring-refuses-full-capacity", "file": FILE, "expect": "AVAILABLE", "old": "        if (requested_size > ring_space) {", "new": "        if (requested_size >= ring_space) {"},
     {"name": "tail-ahead-no-slack", "file": FILE, "expect": "FREE-REGION", "old": "        size_t space = tail_cpy - head_cpy - 1;\n", "new": "        size_t space = tail_cpy - head_cpy;\n"},
